@@ -37,7 +37,7 @@ fn mk_ctx(logn: u32, moduli: &[u64]) -> Result<Ctx, String> {
 fn enc_case(tier: Tier) -> BoxedStrategy<EncCase> {
     let maxlog = tier.pick(8u32, 11u32);
     let entry = prop_oneof![4 => Just(Entry::Array), 2 => Just(Entry::SingleReal), 1 => Just(Entry::SingleComplex), 3 => Just(Entry::Integer), 3 => Just(Entry::CoeffList)];
-    (prop_oneof![8 => 1u32..=5, 2 => 6u32..=maxlog], proptest::collection::vec((20u32..=60, any::<u8>()), 1..=19), entry, any::<u16>(), any::<u16>(), any::<u32>(), 0u8..12, -30i32..50, any::<u16>(), any::<i64>(), 0u8..8)
+    (prop_oneof![8 => 1u32..=5, 2 => 6u32..=maxlog], proptest::collection::vec((20u32..=60, any::<u8>()), 1..=19), entry, any::<u16>(), any::<u16>(), any::<u32>(), 0u8..12, -30i32..50, any::<u16>(), any::<i64>(), 0u8..12)
         .prop_flat_map(|(logn, specs, entry, level_sel, se, sm, scale_kind, vexp, len_sel, ival, ikind)| {
             let bits: Vec<u32> = specs.iter().map(|s| s.0.max(logn + 2)).collect();
             let sels: Vec<u8> = specs.iter().map(|s| s.1).collect();
@@ -114,7 +114,10 @@ fn oracle(c: &EncCase) -> Verdict {
     let lcnt = match c.len_sel % 5 { 0 => 1, 1 => n, 2 => 0, _ => 1 + pick_idx(c.len_sel, n) };
     let list: Vec<f64> = c.vals.iter().take(lcnt).map(|(a, _)| vm(*a)).collect();
     let single = vm(c.vals[0].0);
-    let ival: i64 = match c.ikind { 0 => 0, 1 => 1, 2 => -1, 3 => -((1i64 << 40) + 12345), 4 => (c.moduli[0] as i64) + 1, 5 => -((c.moduli[0] as i64) + 1), 6 => c.ival >> (c.ival.unsigned_abs() % 60), _ => c.ival };
+    let ival: i64 = match c.ikind { 0 => 0, 1 => 1, 2 => -1, 3 => -((1i64 << 40) + 12345), 4 => (c.moduli[0] as i64) + 1, 5 => -((c.moduli[0] as i64) + 1), 6 => c.ival >> (c.ival.unsigned_abs() % 60),
+        // exact multiples of a prime of the chain, either sign (residue 0 in that component)
+        8 | 9 | 10 | 11 => { let q = c.moduli[(c.ival.unsigned_abs() % c.moduli.len() as u64) as usize] as i64; let k = 1 + ((c.ival.unsigned_abs() >> 8) % 3) as i64; let v = q.checked_mul(k).unwrap_or(q); if c.ikind % 2 == 0 { -v } else { v } }
+        _ => c.ival };
     // magnitude of the scaled input (what must fit the modulus)
     let max_in = match c.entry { Entry::Array => vals.iter().map(|z| z.norm()).fold(0.0, f64::max), Entry::SingleReal => single.abs(), Entry::SingleComplex => vals.first().map_or(0.0, |z| z.norm()),
         Entry::Integer => ival.unsigned_abs() as f64, Entry::CoeffList => list.iter().map(|x| x.abs()).fold(0.0, f64::max) };
